@@ -283,8 +283,19 @@ func display(name string) *schema.DisplayValue {
 	return schema.NewDisplayValue(schema.PointerTo(name), nil, nil)
 }
 
+// OnBuild, when set, is told which real schema node was built for which spec node.
+var OnBuild func(s *Spec, t schema.Type)
+
 // Build constructs the real schema through the public constructors only.
 func Build(s *Spec) schema.Type {
+	t := build(s)
+	if OnBuild != nil {
+		OnBuild(s, t)
+	}
+	return t
+}
+
+func build(s *Spec) schema.Type {
 	switch s.Kind {
 	case KInt:
 		return schema.NewIntSchema(s.Min, s.Max, UnitsOf(s.Units))
@@ -370,6 +381,14 @@ func buildProps(s *Spec) map[string]*schema.PropertySchema {
 
 // BuildObject builds an object spec (map based or struct mapped).
 func BuildObject(s *Spec) *schema.ObjectSchema {
+	o := buildObject(s)
+	if OnBuild != nil {
+		OnBuild(s, o)
+	}
+	return o
+}
+
+func buildObject(s *Spec) *schema.ObjectSchema {
 	props := buildProps(s)
 	if s.Struct == "" {
 		if s.Unenforced {
